@@ -14,7 +14,9 @@ EXPLANATION = (
     "CssParseError without unwrapping.")
 NOT_DECIDED = ("C17-C: that stylesheets differing only in insignificant syntax (whitespace, comments, case, final "
                "semicolon, junk rules) style a document identically — a relation between parses of two strings over a stack of "
-               "nom combinators (e.g. the known `p{color:red}` defect is not reported by any rule here)")
+               "nom combinators (e.g. the known `p{color:red}` defect is not reported by any rule here); C17-F/G/H/I decide four "
+               "necessary shapes of it (no raw scans above the tokenizer, balanced at-rule end, white-space set, case folding at the "
+               "identifier primitives), not the relation")
 ASSUMPTIONS = C01.ASSUMPTIONS + ["nom's repetition combinators fail instead of looping when the inner parser consumes nothing"]
 
 CONFIGS_QUICK = ["css"]
